@@ -664,7 +664,8 @@ type c12Connect struct {
 	Client vClientCfg
 	// Fail[i] says how the i-th dial attempt fails: "" healthy, "reset" (reset before anything is written),
 	// "reset-after-hello" (the ClientHello goes out, then the connection is reset), "eof" (server side closes
-	// the connection right after accepting it)
+	// the connection right after accepting it), "reply-fails" (the server cannot write its reply), "reply-fails-late"
+	// (the same, but only after the client's parallel connections have got their replies), "slow" (healthy, 10 ms latency), "reply-delayed" (healthy, the reply arrives 100 ms late)
 	Fail []string
 }
 
@@ -676,7 +677,7 @@ func TestVerif_C12_ConnectFault(t *testing.T) {
 			Transport: rapid.SampledFrom([]string{"direct", "direct", "cdn"}).Draw(rt, "transport"), ServerName: "www.bing.com"}}
 		n := rapid.IntRange(1, 6).Draw(rt, "nfail")
 		for i := 0; i < n; i++ {
-			sc.Fail = append(sc.Fail, rapid.SampledFrom([]string{"", "reset", "reset", "reset-after-hello", "eof", "reply-fails", "reply-fails"}).Draw(rt, "fail"))
+			sc.Fail = append(sc.Fail, rapid.SampledFrom([]string{"", "reset", "reset", "reset-after-hello", "eof", "reply-fails", "reply-fails", "reply-fails-late", "slow", "reply-delayed"}).Draw(rt, "fail"))
 		}
 		return sc
 	}, func(sc c12Connect) (vk.Result, error) {
@@ -729,6 +730,33 @@ func TestVerif_C12_ConnectFault(t *testing.T) {
 					case "reply-fails":
 						l.BreakWrites(vk.BtoA)
 						failed++
+					case "slow":
+						// healthy, but everything the client sends takes 10 ms to arrive: its hello reaches the server
+						// after those of the attempts made at the same time
+						l.SetAuto(vk.AtoB, false)
+						l.StartPump(vk.AtoB, []time.Duration{10 * time.Millisecond}, nil)
+					case "reply-delayed":
+						// healthy, but its hello takes 10 ms and the server's reply to it is held up for 100 ms (a full send
+						// queue): the attempt sits between "session looked up" and "connection added" while others finish
+						l.SetAuto(vk.AtoB, false)
+						l.StartPump(vk.AtoB, []time.Duration{10 * time.Millisecond}, nil)
+						l.SetGrantMode(vk.BtoA, true)
+						go func() {
+							time.Sleep(100 * time.Millisecond)
+							l.SetGrantMode(vk.BtoA, false)
+							for _, tk := range l.UnreleasedTickets(vk.BtoA) {
+								l.ReleaseTicket(vk.BtoA, tk)
+							}
+						}()
+					case "reply-fails-late":
+						// the server's reply is held up (a full send queue) until the client's other, parallel connections
+						// have completed their handshakes; then the connection is reset and the reply write fails
+						failed++
+						l.SetGrantMode(vk.BtoA, true)
+						go func() {
+							time.Sleep(50 * time.Millisecond)
+							l.Reset()
+						}()
 					case "reset-after-hello":
 						failed++
 						go func() {
@@ -774,31 +802,38 @@ func TestVerif_C12_ConnectFault(t *testing.T) {
 				// session that looks alive but does not carry data.
 				mayDie := false
 				for _, f := range sc.Fail {
-					if f == "reset-after-hello" || (f == "reply-fails" && remote.NumConn >= 2) {
+					if f == "reset-after-hello" || ((f == "reply-fails" || f == "reply-fails-late") && remote.NumConn >= 2) {
 						mayDie = true
 					}
 				}
-				st, err := sesh.OpenStream()
-				if err != nil {
-					if mayDie && sesh.IsClosed() {
-						res.NonTrivial = true
-						res.Labels = append(res.Labels, "session-torn-down-by-setup-fault")
-						return res, nil
-					}
-					return res, vk.Violatef("OpenStream on the established session failed: %v", err)
+				// several streams: each picks one of the session's connections at random, and every one must work
+				nProbe := 6
+				if remote.Singleplex {
+					nProbe = 1
 				}
-				msg := []byte("ping through the tunnel")
-				st.Write(msg)
-				buf := make([]byte, 100)
-				st.SetReadDeadline(time.Now().Add(5 * time.Second))
-				n, err := io.ReadFull(st, buf[:len(msg)])
-				if err != nil || string(buf[:n]) != string(msg) {
-					if mayDie && sesh.IsClosed() {
-						res.NonTrivial = true
-						res.Labels = append(res.Labels, "session-torn-down-by-setup-fault")
-						return res, nil
+				for k := 0; k < nProbe; k++ {
+					st, err := sesh.OpenStream()
+					if err != nil {
+						if mayDie && sesh.IsClosed() {
+							res.NonTrivial = true
+							res.Labels = append(res.Labels, "session-torn-down-by-setup-fault")
+							return res, nil
+						}
+						return res, vk.Violatef("OpenStream on the established session failed: %v", err)
 					}
-					return res, vk.ViolateSig("connect-fault-broken-session", "the session established after failed connection attempts looks alive (closed=%v) but does not carry data: read %q, %v", sesh.IsClosed(), buf[:n], err)
+					msg := []byte(fmt.Sprintf("ping %d through the tunnel", k))
+					st.Write(msg)
+					buf := make([]byte, 100)
+					st.SetReadDeadline(time.Now().Add(5 * time.Second))
+					n, err := io.ReadFull(st, buf[:len(msg)])
+					if err != nil || string(buf[:n]) != string(msg) {
+						if mayDie && sesh.IsClosed() {
+							res.NonTrivial = true
+							res.Labels = append(res.Labels, "session-torn-down-by-setup-fault")
+							return res, nil
+						}
+						return res, vk.ViolateSig("connect-fault-broken-session", "the session established after failed connection attempts looks alive (closed=%v) but probe stream %d does not carry data: read %q, %v", sesh.IsClosed(), k, buf[:n], err)
+					}
 				}
 				res.NonTrivial = failed > 0
 				if failed > 0 {
